@@ -42,39 +42,6 @@ Definition all_picklable (v : pyval) : bool :=
 Definition convertible (fp : bool) (v : pyval) : bool :=
   forall_atoms (fun a => match a with AOpaque _ _ p => fp && p | _ => true end) v.
 
-(* ---------- guards of the partial theorems (the complements are the known findings) ---------- *)
-Definition unmasked (v : pyval) : bool :=
-  forall_atoms (fun a => match a with AMasked => false | _ => true end) v.
-
+(* ---------- guard of the partial theorems (the complement is the remaining known finding) ---------- *)
 Definition no_pandas (v : pyval) : bool :=
   forall_nodes (fun x => match x with PSeries _ _ _ _ | PFrame _ _ => false | _ => true end) v.
-
-Definition no_zero_count (v : pyval) : bool :=
-  forall_nodes (fun x => match x with
-                         | PMap KCounter kvs => forallb (fun kv => negb (is_zero (snd kv))) kvs
-                         | _ => true
-                         end) v.
-
-(* everything that gets sorted consists of mutually comparable scalars of ONE class (numbers | str | bytes).
-   (Sufficient, not necessary: e.g. a dict whose keys are tuples of numbers is also sorted canonically.) *)
-Definition sort_class (v : pyval) : option nat :=
-  match v with
-  | PA (AInt _ | ABool _ | AFloat _) => Some 0
-  | PA (AStr _) => Some 1
-  | PA (ABytes _) => Some 2
-  | _ => None
-  end.
-Definition in_class (c : nat) (v : pyval) : bool :=
-  match sort_class v with Some c' => Nat.eqb c c' | None => false end.
-Definition homog (l : list pyval) : bool :=
-  forallb (in_class 0) l || forallb (in_class 1) l || forallb (in_class 2) l.
-
-Definition homogeneous_sortable (v : pyval) : bool :=
-  forall_nodes (fun x => match x with
-                         | PSetv KSet l => homog l
-                         | PMap KODict _ => true
-                         | PMap _ kvs => homog (map fst kvs)
-                         | PSeries _ _ i _ => homog (map PA i)
-                         | PFrame c _ => homog (map (fun col => PA (fst col)) c)
-                         | _ => true
-                         end) v.
